@@ -82,7 +82,7 @@ def worker(wid, jobs, results):
             continue
         open(os.path.join(d, f), "w").write("\n".join(src))
         rec = {"file": f, "line": i + 1, "from": orig.strip(), "to": src[i].strip(), "kind": kind}
-        rc, out = run("cargo test --workspace --no-fail-fast --offline -q 2>&1 | tail -40", d, 900)
+        rc, out = run("timeout 240 cargo test --workspace --no-fail-fast --offline -q 2>&1 | tail -40", d, 400)
         ok = rc == 0 and "FAILED" not in out and "error" not in out.split("test result")[0][:2000].lower().replace("0 errors", "") and "test result" in out
         if rc == 124:
             rec["status"] = "timeout"
